@@ -182,6 +182,8 @@ type FoundViolation struct {
 	Violation
 	Scenario string   `json:"scenario"`
 	Choices  []int    `json:"choices"`
+	Hist     []XEvent `json:"hist,omitempty"`
+	Config   string   `json:"config,omitempty"`
 	Labels   []string `json:"labels"`
 	Log      []string `json:"log"`
 }
@@ -529,7 +531,7 @@ func (w *World) StateKey(symmetry bool) string {
 		if r == 0 {
 			continue
 		}
-		fmt.Fprintf(&sb, "J%d:%s c=%v x=%v s=%v t=%v sch=%v e=%v d=%v", r, j.Pipeline, j.Completed, j.Canceled, j.Start >= 0, j.HasTimer, j.HasSched, j.LastError != "", j.StartDelay)
+		fmt.Fprintf(&sb, "J%d:%s c=%v x=%v s=%v t=%v sch=%v e=%v d=%v b=%v", r, j.Pipeline, j.Completed, j.Canceled, j.Start >= 0, j.HasTimer, j.HasSched, j.LastError != "", j.StartDelay, j.Bad)
 		if j.Waiting() {
 			// how long it has waited relative to its delay matters for the future
 			waited := now - j.Created
